@@ -232,7 +232,7 @@ namespace occa {
     }
     const char * const cStart = c;
     int retLength = 0;
-    int retValueIndex = -1;
+    int retValueIndex = root.valueIndex;
 
     int offset = 0;
     int count = baseNodeCount;
@@ -270,7 +270,7 @@ namespace occa {
       }
     }
 
-    if (retLength) {
+    if (0 <= retValueIndex) {
       return result_t(this, retLength, retValueIndex);
     }
     return result_t(this);
